@@ -498,8 +498,8 @@ theorem inv_copy {s : State} (h : Inv s) (i : Nat) (r ro : Bool) : Inv (copy s i
       · exact inv_copyNR h _ _
   · exact h
 
-theorem inv_negNR {s : State} (h : Inv s) (i : Nat) : Inv (negNR s i).2 := by
-  refine ⟨invA_negNR h.1 i, ?_⟩
+theorem inv_negNR {s : State} (h : Inv s) (i : Nat) (u d : Bool) : Inv (negNR s i u d).2 := by
+  refine ⟨invA_negNR h.1 i u d, ?_⟩
   unfold negNR
   split
   · dsimp only
@@ -510,12 +510,12 @@ theorem inv_negNR {s : State} (h : Inv s) (i : Nat) : Inv (negNR s i).2 := by
   · exact h.2
 
 theorem inv_negStep (c : Nat) (s : State) (kd : Nat × Nat) (h : Inv s) : Inv (negStep c s kd) :=
-  inv_insertDeriv (inv_negNR h _) _ _ _ _
+  inv_insertDeriv (inv_negNR h _ _ _) _ _ _ _
 
-theorem inv_neg {s : State} (h : Inv s) (i : Nat) : Inv (neg s i).2 := by
+theorem inv_neg {s : State} (h : Inv s) (i : Nat) (u d : Bool) : Inv (neg s i u d).2 := by
   unfold neg
   split
-  · exact inv_foldl _ (inv_negStep _) _ _ (inv_negNR h _)
+  · exact inv_foldl _ (inv_negStep _) _ _ (inv_negNR h _ _ _)
   · exact h
 
 theorem inv_unpickle_aux {s1 : State} (h1 : Inv s1) (o : Obj) (nv : Val) (nm : Msk) (top : Bool)
@@ -835,7 +835,7 @@ theorem inv_step {s : State} (h : Inv s) (op : Op) : Inv (step s op).1 := by
   case wod => split <;> first | exact inv_wodOf h _ | exact h
   case clone => split <;> first | exact inv_clone h _ _ | exact h
   case copy => split <;> first | exact inv_copy h _ _ _ | exact h
-  case neg => split <;> first | exact inv_neg h _ | exact h
+  case neg => split <;> first | exact inv_neg h _ _ _ | exact h
   case pickle => split <;> first | exact inv_unpickle h _ _ _ | exact h
   case getDeriv => split <;> (try split) <;> exact h
   case rawRef => split <;> first | exact inv_arrays h (Ext.of_same rfl rfl) rfl | exact h
